@@ -23,6 +23,7 @@ func constantString(c *ssa.Const) string {
 
 // branch decides a symbolic condition, forking the path if both sides are feasible.
 func (in *Interp) branch(cond *Term) bool {
+	cond = in.simp(cond)
 	if cond.IsTrue() {
 		return true
 	}
@@ -41,6 +42,7 @@ func (in *Interp) branch(cond *Term) bool {
 				in.sol.Assert(in.tc.Not(cond))
 			}
 		}
+		in.learnFromCond(cond, d.C == 1)
 		return d.C == 1
 	}
 	if len(r.trace) >= in.cfg.MaxDecisions {
@@ -52,6 +54,7 @@ func (in *Interp) branch(cond *Term) bool {
 	}
 	if resT == Unsat {
 		r.trace = append(r.trace, Dec{C: 0, Forced: true, Kind: 'b'})
+		in.learnFromCond(cond, false)
 		return false
 	}
 	resF := in.sol.Check(in.tc.Not(cond), false)
@@ -60,6 +63,7 @@ func (in *Interp) branch(cond *Term) bool {
 	}
 	if resF == Unsat {
 		r.trace = append(r.trace, Dec{C: 1, Forced: true, Kind: 'b'})
+		in.learnFromCond(cond, true)
 		return true
 	}
 	// both feasible: take true, queue false
@@ -67,7 +71,30 @@ func (in *Interp) branch(cond *Term) bool {
 	r.spawned = append(r.spawned, alt)
 	r.trace = append(r.trace, Dec{C: 1, Kind: 'b'})
 	in.sol.Assert(cond)
+	in.learnFromCond(cond, true)
 	return true
+}
+
+// learnFromCond records x == const facts implied by a decided condition.
+func (in *Interp) learnFromCond(cond *Term, val bool) {
+	if cond.op == OpBNot {
+		cond, val = cond.args[0], !val
+	}
+	if val && cond.op == OpEq {
+		a, b := cond.args[0], cond.args[1]
+		if a.w <= 0 {
+			return
+		}
+		if b.IsConst() {
+			in.learn(a, b.k)
+		} else if a.IsConst() {
+			in.learn(b, a.k)
+		}
+	}
+	if val && cond.op == OpBAnd {
+		in.learnFromCond(cond.args[0], true)
+		in.learnFromCond(cond.args[1], true)
+	}
 }
 
 // branchAt is branch with unwinding accounting for the If instruction.
@@ -110,6 +137,7 @@ func (in *Interp) choose(n int) int {
 
 // concretize picks concrete values for t, forking over all feasible ones.
 func (in *Interp) concretize(t *Term, what string, limit int) uint64 {
+	t = in.simp(t)
 	if t.IsConst() {
 		return t.k
 	}
@@ -126,6 +154,9 @@ func (in *Interp) concretize(t *Term, what string, limit int) uint64 {
 			if d.C == 1 {
 				if !d.Forced {
 					in.sol.Assert(in.tc.Eq(t, vt))
+				}
+				if t.w > 0 {
+					in.learn(t, d.Val)
 				}
 				return d.Val
 			}
@@ -149,12 +180,18 @@ func (in *Interp) concretize(t *Term, what string, limit int) uint64 {
 		}
 		if other == Unsat {
 			r.trace = append(r.trace, Dec{C: 1, Forced: true, Val: v, Kind: 'c'})
+			if t.w > 0 {
+				in.learn(t, v)
+			}
 			return v
 		}
 		alt := append(append([]Dec{}, r.trace...), Dec{C: 0, Val: v, Kind: 'c'})
 		r.spawned = append(r.spawned, alt)
 		r.trace = append(r.trace, Dec{C: 1, Val: v, Kind: 'c'})
 		in.sol.Assert(eq)
+		if t.w > 0 {
+			in.learn(t, v)
+		}
 		return v
 	}
 }
@@ -620,6 +657,13 @@ func (in *Interp) sliceToArrayPointer(t types.Type, x Value) Value {
 
 func (in *Interp) makeSlice(instr *ssa.MakeSlice, ln, cp *Term) Value {
 	tc := in.tc
+	same := ln == cp
+	ln = in.simp(ln)
+	if same {
+		cp = ln
+	} else {
+		cp = in.simp(cp)
+	}
 	// len and cap must be 0 <= len <= cap <= limit
 	if !ln.IsConst() || !cp.IsConst() {
 		zero := in.constLike(ln, 0)
@@ -630,13 +674,49 @@ func (in *Interp) makeSlice(instr *ssa.MakeSlice, ln, cp *Term) Value {
 			in.goPanic("makeslice: len out of range")
 		}
 	}
+	if in.allocLimit > 0 && !cp.IsConst() {
+		if in.branch(tc.Lt(in.constLike(cp, uint64(in.allocLimit)), cp, true)) {
+			in.recordViolation("alloc: allocation out of proportion to the input at "+in.posStr(instr.Pos()), "assert", "")
+			panic(pathEnd{"cut", "allocation above the harness limit"})
+		}
+	}
+	if k := in.cfg.MakeLenSplit; k > 0 && !ln.IsConst() {
+		// bounded exploration of input-controlled lengths: 0..k+1 individually; larger
+		// values are cut (stated in the bounds; the allocation-size obligation above is
+		// still decided for the fully symbolic length)
+		if !in.branch(tc.Le(ln, in.constLike(ln, uint64(k)), true)) {
+			picked := false
+			for _, cand := range []uint64{uint64(k + 1)} {
+				if cand == 0 {
+					continue
+				}
+				eq := tc.Eq(ln, in.constLike(ln, cand))
+				if in.sol.Check(eq, false) == Sat {
+					in.run.cuts++
+					in.assume(eq)
+					picked = true
+					break
+				}
+			}
+			if !picked {
+				in.run.cuts++
+				in.assume(tc.Eq(ln, in.anyValue(ln)))
+			}
+		}
+	}
 	n := in.concInt(ln, "makeslice len")
 	c := n
-	if cp != ln {
+	if cp != ln && cp.IsConst() {
 		c = in.concInt(cp, "makeslice cap")
 	}
+	// A symbolic capacity (already checked to be in range) is not concretised:
+	// the slice starts with cap == len and append reallocates, which is
+	// unobservable for a fresh slice apart from the cap() builtin.
 	if n < 0 || c < n || c > int64(in.cfg.MaxAlloc) {
 		in.goPanic("makeslice: len out of range")
+	}
+	if in.allocLimit > 0 && c > in.allocLimit {
+		in.recordViolation("alloc: allocation out of proportion to the input at "+in.posStr(instr.Pos()), "assert", "")
 	}
 	in.noteAlloc(instr, c)
 	et := instr.Type().Underlying().(*types.Slice).Elem()
@@ -692,11 +772,11 @@ func (in *Interp) slice(instr *ssa.Slice, x, lo, hi, max Value) Value {
 	}
 	l := tc.BV(64, 0)
 	if lo != nil {
-		l = in.as64(lo.(*Term))
+		l = in.simp(in.as64(lo.(*Term)))
 	}
 	var h *Term
 	if hi != nil {
-		h = in.as64(hi.(*Term))
+		h = in.simp(in.as64(hi.(*Term)))
 	} else {
 		h = tc.BV(64, uint64(ln))
 	}
@@ -713,6 +793,31 @@ func (in *Interp) slice(instr *ssa.Slice, x, lo, hi, max Value) Value {
 		in.goPanic("slice bounds out of range")
 	}
 	li := int(in.concInt(l, "slice low"))
+	if k := in.cfg.SliceLenSplit; k > 0 && !h.IsConst() {
+		// bounded exploration of input-controlled slice lengths: 0..k individually plus the
+		// largest feasible one; lengths in between are cut (stated in the bounds)
+		lim := tc.BV(64, uint64(li+k))
+		if !in.branch(tc.Le(h, lim, false)) {
+			top := ln
+			if !isStr {
+				top = cp
+			}
+			picked := false
+			for cand := top; cand > li+k && cand > top-3; cand-- {
+				eq := tc.Eq(h, tc.BV(64, uint64(cand)))
+				if in.sol.Check(eq, false) == Sat {
+					in.run.cuts++
+					in.assume(eq)
+					picked = true
+					break
+				}
+			}
+			if !picked {
+				in.run.cuts++
+				in.assume(tc.Eq(h, in.anyValue(h)))
+			}
+		}
+	}
 	hiI := int(in.concInt(h, "slice high"))
 	mi := int(in.concInt(m, "slice max"))
 	if isStr {
@@ -753,7 +858,7 @@ func (in *Interp) indexAddr(x Value, idx *Term, instr *ssa.IndexAddr) Value {
 	default:
 		in.unsupported("IndexAddr on %T", x)
 	}
-	i64 := in.as64(idx)
+	i64 := in.simp(in.as64(idx))
 	if i64.IsConst() {
 		i := int64(i64.k)
 		if i < 0 || i >= int64(len(cells)) {
@@ -799,7 +904,7 @@ func scalarish(v Value) bool {
 
 func (in *Interp) index(x Value, idx *Term, instr *ssa.Index) Value {
 	tc := in.tc
-	i64 := in.as64(idx)
+	i64 := in.simp(in.as64(idx))
 	switch x := x.(type) {
 	case Array:
 		if i64.IsConst() {
@@ -1248,4 +1353,14 @@ func (in *Interp) lenTerm(n int) *Term {
 		return in.tc.IntC(int64(n))
 	}
 	return in.tc.BV(64, uint64(n))
+}
+
+// anyValue returns one feasible value of t on the current path (as a constant term).
+func (in *Interp) anyValue(t *Term) *Term {
+	if in.sol.Check(nil, true) != Sat {
+		panic(pathEnd{"infeasible", "no model"})
+	}
+	v := in.sol.GetValues([]*Term{t})[0]
+	in.sol.EndCheck()
+	return in.constLike(t, v)
 }
